@@ -162,8 +162,18 @@ LeafDen(l) ==
 RECURSIVE CatTexts(_, _)
 CatTexts(dens, i) == IF i > Len(dens) THEN << >> ELSE dens[i].texts \o CatTexts(dens, i + 1)
 
+\* integer codes are grouped after flattening: runs of integer leaves that follow one another (at whatever nesting
+\* level each of them stands) are one run
+RECURSIVE MergeInts(_, _)
+MergeInts(ls, i) ==
+  IF i > Len(ls) THEN << >>
+  ELSE IF i < Len(ls) /\ ls[i].k = "ints" /\ ls[i + 1].k = "ints"
+       THEN MergeInts(SubSeq(ls, 1, i - 1) \o << [ls[i] EXCEPT !.v = ls[i].v \o ls[i + 1].v] >> \o SubSeq(ls, i + 2, Len(ls)), i)
+       ELSE <<ls[i]>> \o MergeInts(ls, i + 1)
+
 ScrubC(e) ==
-  LET dens == [i \in DOMAIN e.a.leaves |-> LeafDen(e.a.leaves[i])]
+  LET leaves == MergeInts(e.a.leaves, 1)
+      dens == [i \in DOMAIN leaves |-> LeafDen(leaves[i])]
       claim == \A i \in DOMAIN dens : dens[i].claim
       errs == {dens[i].err : i \in DOMAIN dens} \ {"ok"}
       wantErr == IF e.a.badtype = 1 THEN "raise:TypeError"
